@@ -39,8 +39,9 @@ def c14_scenarios(tier, seed):
         for point, ms in gated:
             n = rng.choice([2, 3, 4])
             body = [METHODS[m]() for m in ms.split("+")]
+            # (the test goroutine goes on drawing afterwards, also from a Custom generator: the goroutines' failure must still be there at the end)
             prop = {"body": [op("go", n=n, val=point, body=body), op("ctx", text="main"), op("cleanup", body=[op("ctx", text="in-cleanup")]),
-                             op("failed"), draw(g("Bool"), "b")]}
+                             op("failed"), draw(g("Bool"), "b")] + ([draw(g("Custom", elem=g("Int8"), body=[draw(g("Bool"), "cb")]), "c")] if i % 2 == 0 else [])}
             out.append(scenario("c14-gated-%s-%s-%d" % (point, ms, i), prop, dict(base, seed=rng.randrange(1, 1 << 64), v=rng.choice(["true", "false"])),
                                 tag={"gate": point, "methods": ms, "goroutines": n}))
             # main goroutine first / not at all before the goroutines
